@@ -56,6 +56,7 @@ class ClassInfo:
                 self.bases.append(b.attr)
         self.methods = {}
         self.class_attrs = {}
+        self.ann_fields = []     # NamedTuple-style fields: (name, default expr or None), in order
 
 
 class Repo:
@@ -111,6 +112,8 @@ class Repo:
                 for t in sub.targets:
                     if isinstance(t, ast.Name):
                         ci.class_attrs[t.id] = sub.value
+            elif isinstance(sub, ast.AnnAssign) and isinstance(sub.target, ast.Name):
+                ci.ann_fields.append((sub.target.id, sub.value))
             elif isinstance(sub, ast.ClassDef):
                 self._add_class(mod, sub, path, prefix=name + '.')
 
